@@ -7,7 +7,12 @@
 (* every length-bearing or table-selecting field (frame length, EtherType, *)
 (* IHL, TotalLen, PayloadLen, protocol, ports, TCP data offset, ARP        *)
 (* hlen/plen, source MAC class, source IP class).  All other bytes are     *)
-(* free; the Go driver (harness/cmd/framedrv) fills them from VERIF_SEED.  *)
+(* free; the Go driver (harness/cmd/framedrv) fills them from VERIF_SEED,  *)
+(* cycling over FreeByteFills (random, all zero, all ones: TTL / hop limit  *)
+(* 0 and 255, id 0 and 0xffff, flow label, checksums, options ...).        *)
+(* Parse is a function of the frame ALONE: the driver also parses every    *)
+(* case again after each prefix of PrefixTransforms (frames derived from   *)
+(* the case itself) and then a frame of a never-seen source (write path).  *)
 (*                                                                         *)
 (* Two levels (DESIGN 1.1):                                                *)
 (*   property level  ParseOutcome(s)  - the documented EtherType /         *)
@@ -93,7 +98,8 @@ PortRows == <<
 
 NamedPorts == UNION {PortRows[i].either \cup PortRows[i].dst : i \in DOMAIN PortRows}
 UnnamedPort == 40000
-PortClasses == NamedPorts \cup {UnnamedPort}
+EdgePorts == {0, 1, 65535}          \* legal values (RFC 768 / 9293) that no constant of the table hints at
+PortClasses == NamedPorts \cup {UnnamedPort} \cup EdgePorts
 
 RowMatches(r, sp, dp) == sp \in r.either \/ dp \in r.either \/ dp \in r.dst
 MatchingRows(sp, dp) == {i \in DOMAIN PortRows : RowMatches(PortRows[i], sp, dp)}
@@ -111,12 +117,20 @@ PrecedenceOverlaps == {<<sp, dp>> \in PortClasses \X PortClasses : Cardinality(M
 
 ----------------------------------------------------------------------------
 (* Shapes of frames handed to Session.Parse                                 *)
+FreeByteFills == {"random", "zero", "ones"}
+(* prefixes parsed through the same session before the case is parsed again; the outcome must not change *)
+PrefixTransforms == {"reverse",            \* addresses (MAC, IP) and ports swapped: the answer / the query of the case
+                     "same-tuple",         \* same 5-tuple, other payload
+                     "other-addresses",    \* same ports, other IP addresses
+                     "reverse-then-other"} \* the reverse, then unrelated non-UDP traffic (ARP, ICMP echo), then the case
 SrcMACs == {"client", "own", "router", "mcast", "bcast"}
 Unicast(src) == src \in {"client", "own", "router"}
 
 Base == [fam |-> "parse", path |-> "l2", src |-> "client", sip |-> "na",
          etype |-> 0, flen |-> 0, ihl |-> 0, tl |-> 0, pl |-> 0, proto |-> 0,
          sport |-> 0, dport |-> 0, doff |-> 0, itype |-> 0, hlen |-> 0, plen |-> 0,
+         sha |-> "eth",           \* ARP sender hardware / protocol address class: "eth" = the Ethernet source (sip decides the IP),
+                                  \* "own" / "router" = exactly the session's own / the router's MAC AND IPv4 address, "other" = a third station
          app |-> "none"]          \* structured content the driver writes where no field decides: see ShapesVlanInner, ShapesApp
 
 Max(a, b) == IF a > b THEN a ELSE b
@@ -338,6 +352,12 @@ ShapesSrc ==
   \cup {IP6S(src, sip, 40 + 8 + 12, 8 + 12, ProtoUDP, 5353, 5353, 0, 0) : src \in SrcMACs, sip \in IP6Srcs}
   \cup {IP6S(src, sip, 40 + 24, 24, ProtoICMP6, 0, 0, 0, 135) : src \in SrcMACs, sip \in IP6Srcs}
   \cup {ARPS(src, sip, 28 + pad, 6, 4) : src \in SrcMACs, sip \in IP4Srcs, pad \in {0, 18}}
+  \* ARP sender fields that name the session's own station or the router while another station transmits (proxy / spoofed ARP)
+  \cup {[ARPS(src, IF sh = "own" THEN "hostip" ELSE IF sh = "router" THEN "routerip" ELSE "lan", 28 + pad, 6, 4) EXCEPT !.sha = sh] :
+           src \in {"client", "router", "own"}, sh \in {"own", "router", "other"}, pad \in {0, 18}}
+  \* TCP between edge port values
+  \cup {IP4S("client", "lan", 20 + 20, 5, 20 + 20, ProtoTCP, sp, dp, 5, 0) : sp \in EdgePorts \cup {443}, dp \in EdgePorts \cup {80}}
+  \cup {IP6S("client", "lla", 40 + 20, 20, ProtoTCP, sp, dp, 5, 0) : sp \in EdgePorts, dp \in EdgePorts}
 
 (* G. 802.1Q / 802.1ad frames that carry a complete, well-formed IPv4 / IPv6 / ARP packet after the tag(s)   *)
 (* (app = "inner-..": the driver writes the inner EtherType and packet).  Documented behaviour: PayloadEther,   *)
@@ -673,8 +693,17 @@ OptLLA(t) == <<t, 1, 2, 0, 0, 0, 1, 9>>
 OptZeroLen == <<200, 0, 0, 0, 0, 0, 0, 0>>          \* unknown type, length 0: must be rejected, not looped on
 OptOverlong == <<1, 9, 2, 0, 0, 0, 1, 9>>
 OptMTU == <<5, 1, 0, 0, 0, 0, 5, 220>>
-NdpOpts == {OptNone, OptLLA(1), OptLLA(2), OptZeroLen, OptOverlong, OptMTU}
-OptsWF(o) == o \notin {OptZeroLen, OptOverlong}
+(* DNS search list option (RFC 8106 5.2): type 31, length, 2 reserved, 4 lifetime, domain names as DNS labels, zero padding.  *)
+(* Labels in IDNA "xn--" form whose Unicode decoding is shorter / longer than their wire form (bucher -> 7 bytes from 13,       *)
+(* ten hiragana letters -> 30 bytes from 16): a parser that converts labels must keep walking by WIRE lengths.                  *)
+OptDNSSLAscii == <<31, 3, 0, 0, 0, 0, 0, 60, 7, 101, 120, 97, 109, 112, 108, 101, 3, 99, 111, 109, 0, 0, 0, 0>>
+OptDNSSLPunyShorter == <<31, 4, 0, 0, 0, 0, 0, 60, 13, 120, 110, 45, 45, 98, 99, 104, 101, 114, 45, 107, 118, 97, 2, 100, 101, 0, 0, 0, 0, 0, 0, 0>>
+OptDNSSLPunyLonger == <<31, 4, 0, 0, 0, 0, 0, 60, 16, 120, 110, 45, 45, 108, 56, 106, 97, 97, 97, 97, 97, 97, 97, 97, 97, 2, 106, 112, 0, 0, 0, 0>>
+OptDNSSLTwoNames == <<31, 5, 0, 0, 0, 0, 0, 60, 17, 120, 110, 45, 45, 120, 45, 107, 113, 54, 97, 97, 97, 97, 97, 97, 97, 97, 2, 99, 110, 0, 1, 97, 1, 98, 0, 0, 0, 0, 0, 0>>
+OptDNSSLBadLabel == <<31, 2, 0, 0, 0, 0, 0, 60, 9, 120, 110, 45, 45, 97, 0, 0>>      \* label length runs past the option
+NdpOpts == {OptNone, OptLLA(1), OptLLA(2), OptZeroLen, OptOverlong, OptMTU,
+            OptDNSSLAscii, OptDNSSLPunyShorter, OptDNSSLPunyLonger, OptDNSSLTwoNames, OptDNSSLBadLabel, OptMTU \o OptDNSSLPunyLonger}
+OptsWF(o) == o \notin {OptZeroLen, OptOverlong, OptDNSSLBadLabel}
 ViewNDP ==
   {VS("ICMP6RouterSolicitation", 8 + Len(o) + x, {S1("Type", t)}, {Raw(8, o)}, t = 133 /\ OptsWF(o) /\ x = 0,
       IF o = OptLLA(1) THEN {Rn("SourceLLA", 10, 16)} ELSE {}, IF o = OptLLA(1) THEN {} ELSE {"SourceLLA"}) :
